@@ -17,7 +17,8 @@ RULE = (
     "plus every defined (version, command, sub-type) x boundary payload corpus of its rule, plus "
     "Hypothesis text/numeric payloads per rule, plus exhaustive table laws (monotone growth, every "
     "sub-type has a total rule, every presentation type x value type child schema validates without "
-    "internal error). Oracle: tri-state reference validator (hand-written tables). Non-trivial = "
+    "internal error), plus Hypothesis streams of sibling lines (same command / sub-type, one coordinate changed) fed to ONE "
+    "gateway through logic() with the verdict observed on that inbound path. Oracle: tri-state reference validator (hand-written tables). Non-trivial = "
     "definite verdict AND (exactly one clause violated, or accepted with a coordinate at an extreme of "
     "its range); distinct by (version, header, payload)."
 )
@@ -221,6 +222,97 @@ def _hyp_worker(args):
     return stats
 
 
+# --- the inbound path: one gateway, many lines ---------------------------------
+# The verdict must be a function of the line and the version alone: a gateway that has already judged other
+# lines (same command / sub-type on another child, node, ack or payload class) judges the next one the same way.
+
+
+@st.composite
+def stream_cases(draw):
+    version = draw(st.sampled_from(T.VERSIONS))
+    lines = []
+    for _ in range(draw(st.integers(2, 5))):
+        cmd = draw(st.sampled_from(T.COMMANDS))
+        sub = draw(st.integers(0, T.MAX_SUB[version][cmd]))
+        good, bad = T.exemplars(T.payload_rule(version, cmd, sub))
+        payloads = [good] + ([bad] if bad is not None else [])
+        base = (draw(st.sampled_from([1, 2, 254])), draw(st.sampled_from([0, 1, 255])), cmd, 0, sub, draw(st.sampled_from(payloads)))
+        group = [base]
+        for _ in range(draw(st.integers(1, 3))):
+            sib = list(draw(st.sampled_from(group)))
+            which = draw(st.sampled_from(["child", "child", "node", "ack", "payload", "sub"]))
+            if which == "child":
+                sib[1] = draw(st.sampled_from([0, 1, 254, 255, 256]))
+            elif which == "node":
+                sib[0] = draw(st.sampled_from([0, 1, 255, 256]))
+            elif which == "ack":
+                sib[3] = draw(st.sampled_from([0, 1, 2]))
+            elif which == "payload":
+                sib[5] = draw(st.sampled_from(payloads))
+            else:
+                sib[4] = draw(st.integers(0, T.MAX_SUB[version][cmd] + 1))
+            group.append(tuple(sib))
+        lines.extend(draw(st.permutations(group)))
+    return {"version": version, "lines": [list(f) for f in lines]}
+
+
+def judge_stream(case, stats):
+    import voluptuous as vol
+    from mysensors.message import Message
+
+    from vf import drive
+
+    version = case["version"]
+    seen = []
+    original = Message.validate
+
+    def spy(self, *args, **kwargs):
+        try:
+            result = original(self, *args, **kwargs)
+        except vol.Invalid:
+            seen.append(((self.node_id, self.child_id, self.type, self.ack, self.sub_type, self.payload), False))
+            raise
+        seen.append(((self.node_id, self.child_id, self.type, self.ack, self.sub_type, self.payload), True))
+        return result
+
+    Message.validate = spy
+    try:
+        driver = drive.Driver(version, "sync")
+        mixed = set()
+        for index, fields in enumerate(case["lines"]):
+            fields = tuple(fields)
+            ref = V.validate(version, fields)
+            del seen[:]
+            step = driver.line(codec.encode(fields))
+            if step.exc is not None:
+                if ref is False:
+                    raise Violation(f"inbound.raises.{type(step.exc).__name__}", case, f"line {index} {codec.encode(fields)!r} (invalid) made the pump raise {step.exc!r}")
+                return  # crashes on accepted lines are C01's business
+            mine = [ok for f, ok in seen if f == fields]
+            if ref is None or not mine:
+                continue
+            mixed.add(ref)
+            if mine[0] != ref:
+                clause = "accepts_invalid" if mine[0] else "rejects_valid"
+                raise Violation(
+                    f"inbound.{clause}", case,
+                    f"version {version}: line {index} {codec.encode(fields)!r} was {'accepted' if mine[0] else 'rejected'} on the gateway's inbound path after "
+                    f"{[codec.encode(tuple(f)) for f in case['lines'][:index]]}; reference says {'valid' if ref else 'invalid'} ({clause_failures(version, fields)})",
+                )
+    finally:
+        Message.validate = original
+    nt = mixed == {True, False}
+    stats.case(common.chash([version, case["lines"]]) if nt else None, {"version": version, "lines": [codec.encode(tuple(f)) for f in case["lines"]][:8]} if nt else None, labels=("inbound-path",))
+
+
+def _stream_worker(args):
+    seed_value, n = args
+    common.setup_path()
+    stats = common.Stats()
+    common.run_given(stats, stream_cases(), lambda c: judge_stream(c, stats), n, seed_value)
+    return stats
+
+
 # --- table laws ---------------------------------------------------------------
 
 
@@ -313,6 +405,9 @@ def regression(run):
         body = json.load(open(path, encoding="utf-8"))
         case = body["case"]
         try:
+            if "lines" in case:
+                judge_stream(case, run.stats)
+                continue
             judge(case["version"], tuple(case["fields"]), run.stats, "regression")
         except Violation as v:
             run.stats.violation(v.clause, v.case, f"[regression {path}] {v.detail}")
@@ -343,6 +438,10 @@ def main(tier):
     shards = [(common.shard_seed(common.seed(), i), n) for i in range(8 if tier == "quick" else 16)]
     for stats in common.pool_map(_hyp_worker, shards):
         run.stats.merge(stats)
+    n = 250 if tier == "quick" else 6000
+    shards = [(common.shard_seed(common.seed(), 100 + i), n) for i in range(8 if tier == "quick" else 16)]
+    for stats in common.pool_map(_stream_worker, shards):
+        run.stats.merge(stats)
     return run.finish()
 
 
@@ -352,7 +451,9 @@ def replay(path):
     stats = common.Stats()
     try:
         case = body["case"]
-        if "fields" not in case:
+        if "lines" in case:
+            judge_stream(case, stats)
+        elif "fields" not in case:
             table_laws(stats)
             if any(v["clause"] == body["clause"] for v in stats.violations):
                 raise Violation(body["clause"], case, "table law still violated")
